@@ -354,8 +354,98 @@ def check_metric_adapter(cfg, acc):
                 acc.outcome((F["adapter"], cfg["alphabet"], seq, b))
 
 
+# --- metric adapters on real systems with live (cached) chain states -------------------------
+
+WARM_METHODS = ("h", "dh_dmom", "grad_neg_log_dens", "h2", "gram", "inv_gram",
+                "project_onto_cotangent_space", "sample_momentum")
+
+
+def check_metric_real(cfg, acc):
+    """Real Euclidean / constrained systems; chain states whose caches were warmed by a subset of
+    the system's cached methods before `finalize`. Oracle (differential, no hand-written value):
+    after finalize the refreshed momentum and every observable of the live state equal those of a
+    state freshly constructed at the same position, refreshed with the same normal draws under the
+    metric the adapter has set."""
+    from mici import adapters as A
+    from mc import zoo
+    from mc.script_rng import BasisRng
+
+    full = cfg["adapter"] == "covar"
+    F = {"adapter": "OnlineCovarianceMetricAdapter" if full else "OnlineVarianceMetricAdapter",
+         "class": None}
+
+    def viol(what, obs, exp, **kw):
+        acc.violation(driver="metric_real", config=cfg, fields={**F, "what": what},
+                      kind="refresh", observed=obs, expected=exp, **kw)
+
+    case = zoo.build_case(cfg["system"])
+    S = case.system
+    F["class"] = type(S).__name__
+    d = case.d
+    sts = zoo.on_manifold_states(case, cfg["system"].get("seed", 0), 4) \
+        if case.constraint is not None else zoo.states(d, cfg["system"].get("seed", 0), 4)
+    methods = [m for m in WARM_METHODS if hasattr(S, m)]
+    z = np.array([0.7, -1.3, 0.4, 1.1])[:d]
+    for b in (1, 2):
+        for mask in range(1 << len(methods)):
+            warm = [m for k, m in enumerate(methods) if mask >> k & 1]
+            acc.count("evaluations")
+            case = zoo.build_case(cfg["system"])
+            S = case.system
+            ad = (A.OnlineCovarianceMetricAdapter if full else A.OnlineVarianceMetricAdapter)(
+                reg_iter_offset=2, reg_scale=0.5)
+            tr = StubTransition(None, S)
+            ast, css = [], []
+            for c in range(b):
+                cs = zoo.mk_state(sts[0][0], sts[0][1])
+                st = ad.initialize(cs, tr)
+                for (q, p) in sts[c:] + sts[:c]:
+                    cs = zoo.mk_state(q, p)
+                    ad.update(st, cs, None, tr)
+                for m in warm:
+                    if m == "sample_momentum":
+                        S.sample_momentum(cs, BasisRng(z))
+                    elif m == "project_onto_cotangent_space":
+                        S.project_onto_cotangent_space(np.array(cs.mom), cs)
+                    else:
+                        getattr(S, m)(cs)
+                ast.append(st)
+                css.append(cs)
+            try:
+                if b == 1:
+                    ad.finalize(ast[0], css[0], tr, BasisRng(z))
+                else:
+                    ad.finalize(ast, css, tr, [BasisRng(z * (c + 1)) for c in range(b)])
+            except Exception as e:  # noqa: BLE001
+                viol("raises:" + type(e).__name__, repr(e)[:200], "a metric", warm=warm, chains=b)
+                return
+            for c in range(b):
+                fresh = zoo.mk_state(np.array(css[c].pos), np.zeros(d))
+                fresh.mom = S.sample_momentum(fresh, BasisRng(z * (c + 1) if b > 1 else z))
+                if not np.allclose(css[c].mom, fresh.mom, rtol=1e-10, atol=1e-12):
+                    viol("refreshed_momentum_differs_from_fresh_state_under_new_metric",
+                         np.array(css[c].mom), np.array(fresh.mom), warm=warm, chains=b, chain=c)
+                    return
+                for m in ("h", "h1", "h2", "dh_dmom", "dh_dpos"):
+                    if not hasattr(S, m):
+                        continue
+                    a_, b_ = np.asarray(getattr(S, m)(css[c])), np.asarray(getattr(S, m)(fresh))
+                    if not np.allclose(a_, b_, rtol=1e-10, atol=1e-12):
+                        viol("stale_after_refresh:" + m, a_, b_, warm=warm, chains=b, chain=c)
+                        return
+                if case.constraint is not None:
+                    Mi = np.linalg.inv(np.asarray(S.metric.array, dtype=float))
+                    res = float(np.max(np.abs(case.constraint.jac(css[c].pos) @ Mi @ css[c].mom)))
+                    if res > 1e-9 * (1 + float(np.max(np.abs(css[c].mom)))):
+                        viol("refreshed_momentum_not_in_cotangent_space_of_new_metric", res,
+                             "<= 1e-9", warm=warm, chains=b, chain=c)
+                        return
+            acc.outcome((F["adapter"], F["class"], tuple(warm), b))
+
+
 def check_config(cfg, acc):
-    {"dual": check_dual, "search": check_search, "metric": check_metric_adapter}[cfg["mode"]](
+    {"dual": check_dual, "search": check_search, "metric": check_metric_adapter,
+     "metric_real": check_metric_real}[cfg["mode"]](
         cfg, acc)
     acc.count("cases")
     if len(acc.samples) < 3:
@@ -388,7 +478,22 @@ def configs(tier, seed):
                 cfgs.append({"mode": "metric", "adapter": adapter, "alphabet": alphabet,
                              "reg": list(reg), "max_len": 4 if tier == "quick" else 5,
                              "max_chains": 3})
+    for adapter in ("var", "covar"):
+        for sc in REAL_SYSTEMS:
+            cfgs.append({"mode": "metric_real", "adapter": adapter, "system": sc})
     return cfgs
+
+
+REAL_SYSTEMS = [
+    {"family": "euclidean", "d": 3, "target": "quartic", "metric": "pos_diagonal", "seed": 0},
+    {"family": "euclidean", "d": 3, "target": "logcosh", "metric": "dense_pd", "seed": 1},
+    {"family": "constrained", "d": 3, "target": "quartic", "metric": "dense_pd",
+     "constraint": "sphere", "seed": 0},
+    {"family": "constrained", "d": 3, "target": "logcosh", "metric": "pos_diagonal",
+     "constraint": "affine", "seed": 1, "hausdorff": False},
+    {"family": "constrained", "d": 3, "target": "gauss", "metric": "identity",
+     "constraint": "ellipsoid", "seed": 0},
+]
 
 
 def run(tier, seed, acc):
